@@ -76,7 +76,7 @@ func runC08(c *vkit.Ctx, lab *Lab, r *rand.Rand, i int) {
 	}
 	own := BuildOwned(rec)
 	sd := lab.Seed(r, own, LabOpts{Stale: true})
-	res := lab.P.RunChild(RunOpt{PkgDir: lab.PkgDir, Scenario: lc.withSkips(), Run: lc.Run, Count: lc.Count, Update: lc.Update})
+	res := lab.P.RunChild(RunOpt{PkgDir: lab.PkgDir, Scenario: lc.withSkips(), Run: lc.Run, Count: lc.Count, Extra: lc.Flags, Update: lc.Update})
 	in := labSample(lc)
 	if !res.Complete {
 		c.Violate("clean-did-not-complete", "", fmt.Sprintf("child died: %v %s", res.Err, res.Stderr), in)
